@@ -20,7 +20,21 @@ const STD_METHODS: &[&str] = &[
     "enumerate", "zip", "rev", "last", "first", "chars", "eq", "ne", "to_vec", "count", "min", "max", "fold", "for_each", "take", "skip",
     "starts_with", "ends_with", "as_bytes", "borrow", "deref", "flatten", "chain", "partial_cmp",
 ];
-const STD_PATHS: &[&str] = &["Vec::new", "String::from", "HashMap::new", "Mutex::new", "String::new"];
+const STD_PATHS: &[&str] = &["Vec::new", "String::from", "HashMap::new", "Mutex::new", "String::new",
+    // fully qualified forms of std methods, and releasing a value
+    "Arc::clone", "Rc::clone", "Clone::clone", "Arc::new", "Box::new", "Vec::with_capacity", "HashMap::with_capacity", "Default::default",
+    "ToString::to_string", "ToOwned::to_owned", "drop", "mem::drop", "std::mem::drop", "Option::is_some", "Option::is_none", "Option::cloned"];
+
+/// `drop(<ident>);` (also `mem::drop`, `std::mem::drop`) as a statement of its own: the named guard ends here.
+fn is_drop_of(stmt: &syn::Stmt, ident: &str) -> bool {
+    if let syn::Stmt::Expr(syn::Expr::Call(c), _) = stmt {
+        let callee = norm(&c.func);
+        if ["drop", "mem::drop", "std::mem::drop"].contains(&callee.as_str()) && c.args.len() == 1 {
+            return norm(&c.args[0]) == ident;
+        }
+    }
+    false
+}
 const MUTATORS: &[&str] = &["insert", "remove", "clear", "entry", "retain", "drain", "extend", "get_mut", "iter_mut", "values_mut"];
 
 fn skip_attrs(attrs: &[syn::Attribute]) -> bool {
@@ -165,9 +179,16 @@ impl Scanner {
                 syn::Stmt::Local(l) => {
                     if let Some(init) = &l.init {
                         if let Some(m) = peel_lock(&init.expr) {
-                            // named guard: alive for the rest of the block
+                            // named guard: alive for the rest of the block, or up to an explicit `drop(guard);` in this block
+                            let guard = match &l.pat {
+                                syn::Pat::Ident(pi) => pi.ident.to_string(),
+                                _ => String::new(),
+                            };
                             let mut cc = CallCollector::default();
                             for later in &block.stmts[i + 1..] {
+                                if !guard.is_empty() && is_drop_of(later, &guard) {
+                                    break;
+                                }
                                 cc.visit_stmt(later);
                             }
                             self.push_site(m, "let", cc);
